@@ -47,7 +47,7 @@ CHECKS = {
    category="exploration",
    text="2..6 real goroutines run seeded lists of independent operations (build codecs, Register/RegisterSchema own types with versioned builders, decode/encode with SHARED codecs, ReadFile, Encoder, close banks received from other goroutines, SchemaForType, timestamp parsing with seeded zone offsets) under a token scheduler that releases one goroutine at a time from the plan's pre-drawn schedule and is invisible to the Go race detector (//go:norace spin on a plain word). Judge 1: the race detector's report stream must be empty. Judge 2: every operation's result equals the result of that goroutine's list re-executed alone. The simulated bank pool contributes exactly sync.Pool's Put->Get edge per bank.",
    design_ref="§5 C12",
-   note="Sampled schedules. Race detector limits apply (bounded shadow history, one report per stack pair per process). Interleavings are chosen at yield points only: every SimDisk read/write, callback, operation boundary, and (hooks) before the registry, schema-registry and tz-cache locks and at pool get/put — an atomicity violation between two instructions with no yield point between them and no data race (e.g. an unlocked load-clone-store of an atomic pointer) is out of reach (DESIGN §13.1). Half of the plans use 1-4 operation kinds only and a third never recycle a bank, because lock hand-overs and recycled banks are legitimate happens-before edges that would otherwise order everything. SUPPLEMENT (1 plan in 8, labelled 'parallel burst', outside the deterministic simulation and not exactly replayable — the replay command retries up to 12 times): all goroutines are released at once on 8 OS threads and repeat their lists 30-5000 times under the race detector and the run-alone oracle, for atomicity violations that have neither a yield point nor a data race.",
+   note="Sampled schedules. Race detector limits apply (bounded shadow history, one report per stack pair per process). Interleavings are chosen at yield points only: every SimDisk read/write, callback, operation boundary, and (hooks) before the registry, schema-registry and tz-cache locks and at pool get/put — an atomicity violation between two instructions with no yield point between them and no data race (e.g. an unlocked load-clone-store of an atomic pointer) is out of reach (DESIGN §13.1). Half of the plans use 1-4 operation kinds only and a third never recycle a bank, because lock hand-overs and recycled banks are legitimate happens-before edges that would otherwise order everything. SUPPLEMENT (1 plan in 8, labelled 'parallel burst', outside the deterministic simulation and not exactly replayable — the replay command retries up to 40 times): all goroutines are released at once on 8 OS threads and repeat their lists 30-5000 times under the race detector and the run-alone oracle, for atomicity violations that have neither a yield point nor a data race.",
    technique="deterministic simulation: seeded token scheduler over real goroutines (race-detector-invisible) + Go race detector as happens-before judge + run-alone equivalence oracle"),
  "C06": dict(
    category="exploration",
